@@ -522,6 +522,22 @@ impl<F: Fam> Ctx<F> {
                             }
                         }
                     }
+                    // internal iteration (fold) of what is left after `skip` next() calls enumerates
+                    // exactly what next() yields from there, in the same order
+                    if out.len() == n {
+                        let skip = clone_idx.unwrap_or(0).min(n);
+                        let mut it = set.iter();
+                        for _ in 0..skip {
+                            it.next();
+                        }
+                        let mut pos = skip;
+                        let mut same = true;
+                        it.for_each(|k| {
+                            same &= out.get(pos) == Some(&(k.k(), k.id()));
+                            pos += 1;
+                        });
+                        ic!(errs, same && pos == n, "set iter(): internal iteration (fold / for_each) after {} next() calls enumerated {} elements, in an order or multiset different from what next() yields from there ({} elements)", skip, pos - skip, n - skip);
+                    }
                 } else {
                     let mut d = set.drain();
                     let mut rem = n;
